@@ -101,6 +101,11 @@ pub fn parse_byte_list(input: &str) -> Result<Vec<u8>, DataError> {
         }
     }
 
+    // nothing but quotes: the empty byte list ('')
+    if start_quote_count == input.len() {
+        return Ok(bytes);
+    }
+
     // count characters, not bytes: it is used with the char-based `take` below
     let real_len = input.chars().count() - start_quote_count * 2;
 
